@@ -76,15 +76,18 @@ def rule_a(ctx, init, tabs):
     f = m.method(k, "assemble")
     am = AM(f)
     loops = [l for l in f.node.body if isinstance(l, ast.For)]
-    ok = len(loops) == 1 and am.eq(loops[0],
-        "for r in range(self.num_patches[0]):\n"
-        "    rel_roi = self.relative_rois_without_overlap[r][0]\n"
-        "    strip = self.patches[r][0].img[rel_roi]\n"
-        "    for c in range(1, self.num_patches[1]):\n"
-        "        rel_roi = self.relative_rois_without_overlap[r][c]\n"
-        "        strip = np.hstack((strip, self.patches[r][c].img[rel_roi]))\n"
-        "    whole = np.vstack((whole, strip))") \
-        and am.has(f.node, "whole = np.zeros((0, *self.base.img.shape[1:]), dtype=self.base.img.dtype)") is not None \
+    def tpl(h, v):
+        return ("for r in range(self.num_patches[0]):\n"
+                "    rel_roi = self.relative_rois_without_overlap[r][0]\n"
+                "    strip = self.patches[r][0].img[rel_roi]\n"
+                "    for c in range(1, self.num_patches[1]):\n"
+                "        rel_roi = self.relative_rois_without_overlap[r][c]\n"
+                f"        strip = {h}\n"
+                f"    whole = {v}")
+    H = ("np.hstack((strip, self.patches[r][c].img[rel_roi]))", "np.concatenate((strip, self.patches[r][c].img[rel_roi]), axis=1)")
+    V = ("np.vstack((whole, strip))", "np.concatenate((whole, strip), axis=0)")
+    ok = len(loops) == 1 and any(am.eq(loops[0], tpl(h, v)) for h in H for v in V) \
+        and any(am.has(f.node, f"whole = np.{z}((0, *self.base.img.shape[1:]), dtype=self.base.img.dtype)") is not None for z in ("zeros", "empty")) \
         and am.has(f.node, "result = type(self.base)(img=whole, **self.base.metadata())") is not None and am.has(f.node, "return result") is not None
     ctx.ob(R, f.qname, "assemble: columns are concatenated horizontally inside, rows vertically outside, patches[row][col] throughout", ok, "", f.node)
 
